@@ -9,6 +9,7 @@ import NaijaVerif.Lemmas.AnalysisCheck
 import NaijaVerif.Lemmas.AnalysisBase
 import NaijaVerif.Lemmas.AnalysisLiveTop
 import NaijaVerif.Lemmas.AnalysisLiveMono
+import NaijaVerif.Lemmas.AnalysisLiveModel
 /-
 C03 — analysis-driven pruning never changes what a program does.
 
@@ -25,29 +26,33 @@ Proved here, for every program, every primitive semantics and every amount of fu
   (calls of functions with a `PureNoTrap` summary) is `quietIn_safe2` in `Lemmas/AnalysisPureCall.lean`;
 * T3 `t3_unused_function_never_looked_up` (hypotheses `BRClosed`, `OwnOk`, decidable, evaluated by
   the driver on every case of the tie);
-* T4/T5 `c03_live`, `c03_live_checked`, **`c03_full_checked`**: the liveness simulation.  The two runs'
-  environments agree, scope by scope, on the variables live at the current program point of the
-  activation the scope belongs to (the live sets are the model's own: `lvStmts`, callee capture reads
-  through the transitive summaries, loops at their fixpoint); suspended activations keep the set
-  they had at their call; never-read variables and skipped declarations are the static special
-  cases.  `c03_full_checked`: for EVERY plan contained in the model's plan the pruned run prints the
-  same values and ends the same way as the plain run, under `modelOkB root facts` — decidable
-  conditions on the program and its facts only (distinct statement ids; consistency of the facts with
-  the annotated AST; the liveness conditions `rootOkB` evaluated for the model's own plan, which are
-  monotone in the plan) — for primitive semantics that are `Lawful` and take scopes from the facts
-  (`ScopesFrom`), and for plain runs that do not end in fuel exhaustion, in a use-before-declaration
-  (`unbound`) or in a crash of the interpreter (`panic`, excluded for accepted programs by C06).
-  The driver evaluates `modelOkB` on every case of the tie (`cover` requests, `live=1`): it holds on
-  100 % of the generated and corpus programs, so the theorem covers the whole model plan there.
+* T4/T5 and the property itself — `c03_live`, `c03_live_checked`, `c03_full_checked`, **`c03_full_holds`**
+  (`c03_full` is proved): the liveness simulation.  The two runs' environments agree, scope by
+  scope, on the variables live at the current program point of the activation the scope belongs to
+  (the live sets are the model's own: `lvStmts`, callee capture reads through the transitive
+  summaries, loops at their fixpoint); suspended activations keep the set they had at their call;
+  never-read variables and skipped declarations are the static special cases; a dropped initialiser
+  may call user functions with a `PureNoTrap` summary (`quietIn_safe2`).  Statement: for primitive
+  semantics that are `Lawful` and take scopes from the facts (`ScopesFrom`), for EVERY plan contained
+  in the model's plan, the pruned run prints the same values and ends the same way as the plain run,
+  unless the plain run ends in fuel exhaustion, in a use-before-declaration (`unbound`) or in a crash
+  of the interpreter (`panic`, excluded for accepted programs by C06) — under `structOkB root facts`:
+  decidable conditions on the program and its facts ONLY (no plan): distinct statement ids; the facts
+  cover what the statements do (reads, writes, callees, scopes, ownership: `efitList`, `globalOkB`);
+  the model's own tables and verdicts are consistent with the occurrences of the statements (row kind,
+  recorded class, unused-assignment verdict ⇒ target not live after this occurrence, unused-variable
+  verdict ⇒ this target, `declRemovable` ⇒ no later reference in the scope: `storeTabB`); loop fixpoints
+  converged; pure summaries backed by pure bodies.  The plan-construction logic of opt.rs is proved
+  sufficient once and for all (`modelOk_of_struct`, `rootOkB_model`), and the conditions are monotone
+  in the plan (`lokListB_mono`).  The driver evaluates `structOkB` on every case of the tie (`cover`
+  requests, `live=1`): it holds on 100 % of the generated and corpus programs.
 * `c03_partial_ext` / `c03_partial_checked`: the older static special case (stores to never-read
   variables), kept because its hypotheses are lighter.
-Stated, not proved (`c03_full`): the same with only the plan-independent structural conditions on the
-facts.  What is missing precisely: that `modelOkB` — i.e. the liveness conditions for the model's own
-plan — follows from the structural conditions (`rootOkB` for the empty plan, loop fixpoints
-converged, statement ids in pre-order) once and for all instead of being evaluated per program; this
-needs two position arguments (`i ∈ unusedAsg` ⇒ the target is not live after THIS occurrence of
-statement `i`; `clsOf i` is the class of THIS statement) and `declRemovable` ⇒ no later reference
-(statement ids increase along a block).  Also open: T6 (verdicts) beyond never-read variables.
+* `c03_full_raw_is_false`: without the laws about the primitive operations the statement is false.
+Still evaluated per program rather than proved: the table-consistency conjuncts of `structOkB`
+(`storeTabB`: true by construction of the model's tables for distinct, pre-order statement ids; a
+proof needs the position arguments "`i ∈ unusedAsg` refers to THIS occurrence of statement `i`").
+Also open: T6 (verdicts) beyond never-read variables; the bridge to `Model/Eval.lean`.
 -/
 namespace NaijaVerif.C03
 open NaijaVerif NaijaVerif.Analysis NaijaVerif.AEval
@@ -66,18 +71,6 @@ mutual
     | [] => by simp [afterStmts]
     | s :: ss => by simp [afterStmts, afterStmt_false s, afterStmts_false ss]
 end
-
-theorem mem_unreachable {root : Block} {i : Nat} : i ∈ unreachable root ↔ (i, false) ∈ tbl root := by
-  simp only [unreachable, tbl, List.mem_map, List.mem_filter]
-  constructor
-  · rintro ⟨r, ⟨hr, hl⟩, rfl⟩
-    refine ⟨r, hr, ?_⟩
-    cases h : r.live <;> simp_all
-  · rintro ⟨r, hr, he⟩
-    have a := congrArg Prod.fst he
-    have b := congrArg Prod.snd he
-    simp at a b
-    exact ⟨r, ⟨hr, by simp [b]⟩, a⟩
 
 /-! ### T1 -/
 
@@ -103,17 +96,10 @@ theorem t1_completes_normally_only_if_fallthrough {V : Type} (P : Prims V) (root
 
 /-- The full-strength statement for the model of the fixed analyses: for primitive semantics that
 satisfy the laws of the runtime's operators (`Lawful`) and take scopes from the facts, and for facts
-that are structurally consistent with the annotated AST (`structOkB`: distinct statement ids, the
-global consistency conditions and the statement-by-statement conditions for the EMPTY plan — what
-the resolver guarantees, independent of any liveness result), every plan contained in the model's
-plan leaves what a run prints and how it ends unchanged, unless the plain run is cut short by the
-fuel, uses a variable before its declaration or crashes the interpreter.  `c03_full_checked` proves
-it with `modelOkB` (the same conditions evaluated for the model's own plan) in place of `structOkB`;
-see the header for what is missing. -/
-def structOkB (root : Block) (facts : Facts) : Bool :=
-  decide (((rows root).map (·.sid)).Nodup) && globalOkB root facts &&
-  rootOkB (lsetupOf root facts none (safe2B (mkCtx root facts))) root
-
+that are consistent with the annotated AST (`structOkB`, `Lemmas/AnalysisLiveModel.lean`: conditions
+on the program and its facts only, no plan), every plan contained in the model's plan leaves what a
+run prints and how it ends unchanged, unless the plain run is cut short by the fuel, uses a variable
+before its declaration or crashes the interpreter.  Proved: `c03_full_holds`. -/
 def c03_full : Prop :=
   ∀ (V : Type) (P : Prims V) (ty : V → LTy → Prop), Lawful P ty →
     ∀ (root : Block) (facts : Facts) (plan : Plan) (fuel : Nat),
@@ -397,9 +383,8 @@ theorem mem_of_subset {a b : List Nat} (h : subset a b = true) : ∀ i ∈ a, i 
 /-- **C03 for every plan contained in the model's plan**, under decidable conditions on the program
 and its facts only (`modelOkB`: distinct statement ids, the global consistency conditions, and the
 liveness conditions evaluated for the model's own plan — they are monotone in the plan, so they
-cover every plan contained in it).  The driver evaluates `modelOkB` on every case of the tie
-(`cover` requests: `live=1`); it holds on every generated program whose dead stores are not
-initialised by calls of pure user functions. -/
+cover every plan contained in it).  `modelOkB` follows from the plan-free `structOkB`
+(`modelOk_of_struct`), which is what the driver evaluates on every case of the tie. -/
 theorem c03_full_checked {V : Type} (P : Prims V) (ty : V → LTy → Prop) (Lw : Lawful P ty)
     (root : Block) (facts : Facts) (plan : Plan) (fuel : Nat)
     (hP : ScopesFrom P facts) (hm : modelOkB root facts = true) (hsub : plan.sub (planModel root facts) = true)
@@ -413,6 +398,13 @@ theorem c03_full_checked {V : Type} (P : Prims V) (ty : V → LTy → Prop) (Lw 
   intro g hg
   have := mem_of_subset hsub.2 g hg
   simpa [planModel, analyse] using this
+
+/-- **C03.**  `c03_full` holds: the liveness conditions for the model's own plan follow from the
+structural conditions (`modelOk_of_struct`: whatever `build_optimization_plan` puts into the plan
+satisfies the rule of its occurrence), so `c03_full_checked` applies. -/
+theorem c03_full_holds : c03_full := by
+  intro V P ty Lw root facts plan fuel hP hs hsub hfuel hunb hpan
+  exact c03_full_checked P ty Lw root facts plan fuel hP (modelOk_of_struct root facts hs) hsub hfuel hunb hpan
 
 /-! ### Non-vacuity -/
 
@@ -474,7 +466,7 @@ def demo3Facts : Facts where
   functionDirects := [⟨[], [], []⟩]
 
 example : planModel demo3 demo3Facts = ⟨[1], []⟩ := by decide
-example : modelOkB demo3 demo3Facts = true := by decide
+example : structOkB demo3 demo3Facts = true := by decide
 
 /-- A primitive semantics in which the literal `1` fails: not `Lawful`. -/
 def badPrims : Prims Unit where
@@ -506,5 +498,62 @@ theorem c03_full_raw_is_false : ¬ c03_full_raw := by
     (by rw [e1]; intro hh; cases hh) (by rw [e2]; intro hh; cases hh)
   rw [o1, o2] at this
   cases this
+
+/-- A toy primitive semantics that satisfies `Lawful`: a value is its literal type, if it has one.
+(Non-vacuity of the hypothesis of `c03_full`; the runtime's own operators are argued to satisfy the
+laws in `Lemmas/AnalysisBridge.lean`.) -/
+def toyPrims : Prims (Option LTy) where
+  null := some .null
+  node := fun e vs =>
+    match e, vs with
+    | .num _ _, _ => .ok (some .num)
+    | .bool _ _, _ => .ok (some .bool)
+    | .null _, _ => .ok (some .null)
+    | .str _ _, _ => .ok (some .str)
+    | .array _ _, _ => .ok none
+    | .unary op _ _, [some a] => match litUnary op a with | some t => .ok (some t) | none => .error (.rt 0)
+    | .binary op _ _ _, [some a, some b] => match litBinary op a b with | some t => .ok (some t) | none => .error (.rt 0)
+    | _, _ => .error (.rt 0)
+  falsy := fun _ => false
+  truthy := fun _ => false
+  logicRhs := fun v => match v with | some .bool | some .null => .ok (some .bool) | _ => .error (.rt 0)
+  logicShort := fun _ => some .bool
+  cond := fun v => match v with | some .bool | some .null => .ok true | _ => .error (.rt 0)
+  isGlobal := fun n => (globalClass n).isSome
+  isShout := fun n => globalClass n == some .impure
+  global := fun _ _ => .ok none
+  isMut := fun f => memberClass f == some .impure
+  mutMember := fun _ _ _ _ => .error (.rt 0)
+  setPath := fun _ _ _ => .error (.rt 0)
+  dscope := fun _ => none
+  sscope := fun _ => none
+
+theorem toyPrims_lawful : Lawful toyPrims (fun v t => v = some t) where
+  global_iff := fun _ => rfl
+  shout_impure := fun name h => by simpa [toyPrims] using h
+  mut_impure := fun f h => by simpa [toyPrims] using h
+  num := fun _ _ => ⟨_, rfl, rfl⟩
+  bool := fun _ _ => ⟨_, rfl, rfl⟩
+  null := fun _ => ⟨_, rfl, rfl⟩
+  str := fun _ _ _ => ⟨_, rfl, rfl⟩
+  array := fun _ _ _ => ⟨_, rfl⟩
+  unary := by
+    intro op x sp a ta t ha ht
+    subst ha
+    exact ⟨some t, by simp [toyPrims, ht], rfl⟩
+  binary := by
+    intro op l r sp a b ta tb t _ _ _ ha hb ht
+    subst ha; subst hb
+    exact ⟨some t, by simp [toyPrims, ht], rfl⟩
+  logicShort := fun _ => rfl
+  logicRhs := by
+    intro b tb hb htb
+    subst hb
+    rcases htb with rfl | rfl <;> exact ⟨_, rfl, rfl⟩
+  pureGlobal := fun _ _ _ _ => ⟨_, rfl⟩
+  command := fun _ _ => ⟨_, rfl⟩
+  cond := by
+    intro v hv
+    rcases hv with rfl | rfl <;> exact ⟨true, rfl⟩
 
 end NaijaVerif.C03
